@@ -28,19 +28,21 @@
 (*                                    Pull/getJoinSet/readJoinSet, step by *)
 (*                                    step                                 *)
 (*                                                                         *)
-(* A stream is [s, ord, by]: a representative sequence s, ord = TRUE iff   *)
-(* the program defines exactly this sequence, and (when ord = FALSE) by =  *)
-(* a comparator such that every admissible ordering is s permuted inside   *)
-(* tie classes of that comparator (NoCmp: any permutation, i.e. a bag).    *)
-(* Operators with several parents combine them in arrival order, which the *)
-(* language leaves undefined: the result is a bag.  det = FALSE marks a    *)
+(* A stream is [s, cls, by]: a representative sequence s together with an    *)
+(* ordered partition cls (a non-decreasing sequence of class ids, one per   *)
+(* element): the admissible arrival orders are exactly the permutations of *)
+(* s that only permute elements of the same class.  All classes singletons *)
+(* (or made of identical values): the program defines the sequence         *)
+(* (Ord).  One class: a bag.  by is a comparator under which every         *)
+(* admissible order is sorted (NoCmp if none is known).  Operators with    *)
+(* several parents read them through a combine, in arrival order, which    *)
+(* the language leaves undefined: one class.  det = FALSE marks a          *)
 (* program/input pair whose multiset of results is itself undefined (head, *)
-(* tail or uniq applied to a stream whose order is undefined); such pairs  *)
+(* tail cutting through a class, uniq over an undefined order); such pairs *)
 (* are outside the property ("the same sequence wherever the program       *)
 (* defines an order and the same multiset elsewhere").  poison = TRUE      *)
-(* marks an execution in which an operator relies on an input order that   *)
-(* the stream does not have (streaming group-by release on keys that are   *)
-(* not contiguous).                                                        *)
+(* marks an execution in which the streaming group-by release can split a  *)
+(* group in some admissible arrival order.                                 *)
 (***************************************************************************)
 EXTENDS Integers, Sequences, FiniteSets, TLC
 
@@ -79,10 +81,6 @@ Cmp(c, x, y) == CmpKey(c, Get(x, c.f), Get(y, c.f))
 SortedBy(s, c) == \A i \in 1..Len(s) : \A j \in i+1..Len(s) : Cmp(c, s[i], s[j]) <= 0
 TiesIdentical(s, c) == \A i \in 1..Len(s) : \A j \in i+1..Len(s) : Cmp(c, s[i], s[j]) = 0 => s[i] = s[j]
 
-\* A stream known to be ordered by comparator b is also ordered by c when the two
-\* differ only in null placement and there is no null/missing key.
-Compat(b, c, s) == b = c \/ (b # NoCmp /\ b.f = c.f /\ b.desc = c.desc /\ \A i \in 1..Len(s) : ~Nullish(Get(s[i], c.f)))
-
 \* stable insertion sort
 RECURSIVE InsertBefore(_, _, _)
 InsertBefore(x, t, c) ==      \* x precedes every element it ties with
@@ -93,8 +91,21 @@ RECURSIVE StableSort(_, _)
 StableSort(s, c) == IF s = <<>> THEN <<>> ELSE InsertBefore(s[1], StableSort(Tail(s), c), c)
 
 \* ---------------------------------------------------------------- streams
-Stream(s, ord, by) == [s |-> s, ord |-> ord \/ Len(s) <= 1, by |-> IF ord \/ Len(s) <= 1 THEN NoCmp ELSE by]
-Bag(s) == Stream(s, FALSE, NoCmp)
+Ids(n) == [i \in 1..n |-> i]
+Ones(n) == [i \in 1..n |-> 1]
+Mk(s, cls, by) == [s |-> s, cls |-> cls, by |-> by]
+Seqd(s) == Mk(s, Ids(Len(s)), NoCmp)          \* the sequence is defined
+Bag(s)  == Mk(s, Ones(Len(s)), NoCmp)         \* only the multiset is defined
+Ord(x) == \A i \in 1..Len(x.s) : \A j \in i+1..Len(x.s) : x.cls[i] = x.cls[j] => x.s[i] = x.s[j]
+\* every admissible order is sorted by c
+SortedAlways(x, c) == SortedBy(x.s, c) /\ \A i \in 1..Len(x.s) : \A j \in i+1..Len(x.s) :
+                                            x.cls[i] = x.cls[j] => Cmp(c, x.s[i], x.s[j]) = 0
+\* class ids after regrouping: element i joins the class of i-1 iff same(i-1, i)
+ClsBy(n, same(_, _)) ==          \* same(i-1, i) => same class
+  LET RECURSIVE F(_, _)
+      F(i, prev) == IF i > n THEN <<>>
+                    ELSE LET c == IF i > 1 /\ same(i - 1, i) THEN prev ELSE i IN <<c>> \o F(i + 1, c)
+  IN F(1, 0)
 
 RECURSIVE Concat(_)
 Concat(ss) == IF ss = <<>> THEN <<>> ELSE ss[1] \o Concat(Tail(ss))
@@ -160,13 +171,18 @@ MapOne(op, v) ==
     [] op.k = "yield"  -> <<Get(v, op.f)>>
     [] op.k = "pass"   -> <<v>>
 
-RECURSIVE MapSeq(_, _)
-MapSeq(op, s) == IF s = <<>> THEN <<>> ELSE MapOne(op, s[1]) \o MapSeq(op, Tail(s))
+\* element-wise application keeping each survivor's class id: sequence of [v, c]
+RECURSIVE MapPairs(_, _, _)
+MapPairs(op, s, cls) ==
+  IF s = <<>> THEN <<>>
+  ELSE LET r == MapOne(op, s[1]) IN
+       (IF r = <<>> THEN <<>> ELSE <<[v |-> r[1], c |-> cls[1]]>>) \o MapPairs(op, Tail(s), Tail(cls))
 
-\* Does the record operator keep the order by comparator c meaningful?
+\* Does the record operator keep the sortedness claim by comparator c valid?
 KeepsKey(op, c, s) ==
   \/ c = NoCmp
-  \/ op.k \in {"where", "pass"}
+  \/ op.k = "pass"
+  \/ op.k = "where" /\ \A i \in 1..Len(s) : Conj3(op.ps, s[i]) # "E"       \* no value turns into an error
   \/ op.k = "put" /\ op.l # c.f
   \/ op.k = "drop" /\ op.f # c.f
   \/ op.k = "rename" /\ op.r # c.f /\ op.l # c.f
@@ -206,22 +222,40 @@ Summ(op, s) ==
        IN [i \in 1..Len(ks) |->
              RecV(<<Fld(op.key, ks[i]), Fld(op.agg, AggOf(op, SelectSeq(s, LAMBDA v : Get(v, kf) = ks[i])))>>)]
 
-\* groupby.go: with InputSortDir # 0 a group is released as soon as a larger
-\* primary key has been seen, so the result is right iff equal keys are
-\* contiguous in every admissible arrival order.
-\* (null and missing keys are different groups but tie under every comparator;
-\* their interleaving inside a sorted run was not reproducible as a wrong result
-\* on the real code and is not treated as one here.)
-KC(k) == IF Nullish(k) THEN NULL ELSE k
-GroupedC(s, f) == \A i \in 1..Len(s) : \A j \in i+1..Len(s) :
-                   KC(Get(s[i], f)) = KC(Get(s[j], f)) => \A m \in i..j : KC(Get(s[m], f)) = KC(Get(s[i], f))
+\* groupby.go with InputSortDir # 0 (streaming release).  The aggregator tracks the
+\* largest primary key seen (maxTableKey, under expr.NewValueCompareFn(o, nullsMax =
+\* true): ints by value < error("missing") < null, operands swapped for desc); a row
+\* remembers the maximum at its creation (groupval) and is released after a batch as
+\* soon as groupval < maximum.  A key that shows up again after its row was released
+\* starts a second row: the group is split.  Releasing after every value (1-value
+\* batches) is the worst case -- coarser batches release at a subset of these points.
+\* Over all admissible arrival orders this can happen iff some key k occurs at o1 and
+\* again at o2 and a value e that can arrive between them has a key larger than k and
+\* than everything that must have arrived before o1.
+KAsc(x, y) ==
+  IF x = y THEN 0
+  ELSE IF x.t = "int" /\ y.t = "int" THEN Sign(x.n - y.n)
+  ELSE IF x.t = "int" THEN -1
+  ELSE IF y.t = "int" THEN 1
+  ELSE IF x.t = "null" THEN 1 ELSE -1            \* err < null
+KCmp(desc, x, y) == IF desc THEN KAsc(y, x) ELSE KAsc(x, y)
+KeysOf(s, f) == [i \in 1..Len(s) |-> Get(s[i], f)]
+CanSplit(x, f, desc) ==
+  LET ks == KeysOf(x.s, f)
+      n == Len(ks)
+  IN \E o1 \in 1..n : \E o2 \in 1..n : \E e \in 1..n :
+        /\ o1 # o2 /\ e # o1 /\ e # o2
+        /\ ks[o1] = ks[o2] /\ x.cls[o1] <= x.cls[o2]
+        /\ x.cls[o1] <= x.cls[e] /\ x.cls[e] <= x.cls[o2]
+        /\ KCmp(desc, ks[e], ks[o1]) > 0
+        /\ \A p \in 1..n : x.cls[p] < x.cls[o1] => KCmp(desc, ks[e], ks[p]) > 0
+\* a sort hands its whole output over in one batch: nothing is released in between
+GroupedAlways(x, f, desc) ==
+  \/ x.by # NoCmp /\ x.by.f = f /\ SortedBy(x.s, x.by)
+  \/ ~CanSplit(x, f, desc)
+\* input validity for declared sort keys (Rewrite.tla): equal keys are contiguous
 Grouped(s, f) == \A i \in 1..Len(s) : \A j \in i+1..Len(s) :
                    Get(s[i], f) = Get(s[j], f) => \A m \in i..j : Get(s[m], f) = Get(s[i], f)
-GroupedAlways(x, f) ==
-  \/ Cardinality({Get(x.s[i], f) : i \in 1..Len(x.s)}) <= 1
-  \/ Cardinality({Get(x.s[i], f) : i \in 1..Len(x.s)}) = Len(x.s)      \* every key occurs once (e.g. the output of a summarize)
-  \/ x.ord /\ GroupedC(x.s, f)
-  \/ ~x.ord /\ x.by # NoCmp /\ x.by.f = f /\ SortedBy(x.s, x.by)
 
 \* ------------------------------------------------------------------ join
 \* op = [k |-> "join", style |-> "inner"|"left"|"anti"|"right", ldir, rdir |-> -1|0|1]
@@ -280,6 +314,10 @@ JoinRun(op, lp, rp) ==
 \* state: [ps (parent streams), det, poison]
 St(ps, det, poison) == [ps |-> ps, det |-> det, poison |-> poison]
 
+\* all elements of the class of position i are identical
+ClassUniform(x, i) == \A j \in 1..Len(x.s) : x.cls[j] = x.cls[i] => x.s[j] = x.s[i]
+SubCls(cls, a, b) == [i \in 1..(b - a + 1) |-> cls[a + i - 1]]
+
 RECURSIVE SemSeq(_, _)
 SemOp(op, st) ==
   CASE op.k = "fork" ->
@@ -292,9 +330,9 @@ SemOp(op, st) ==
          \* switcher: a value goes to the first case whose predicate is true
          LET x == Combine(st.ps)
              goes(v, i) == PredT(op.cases[i].p, v) /\ \A m \in 1..(i-1) : ~PredT(op.cases[m].p, v)
-             legs == [i \in 1..Len(op.cases) |->
-                        SemSeq(op.cases[i].path,
-                               St(<<Stream(SelectSeq(x.s, LAMBDA v : goes(v, i)), x.ord, x.by)>>, TRUE, FALSE))]
+             sub(i) == LET ix == SelectSeq(Ids(Len(x.s)), LAMBDA j : goes(x.s[j], i))
+                       IN Mk([j \in 1..Len(ix) |-> x.s[ix[j]]], [j \in 1..Len(ix) |-> x.cls[ix[j]]], x.by)
+             legs == [i \in 1..Len(op.cases) |-> SemSeq(op.cases[i].path, St(<<sub(i)>>, TRUE, FALSE))]
          IN St([i \in 1..Len(legs) |-> Combine(legs[i].ps)],
                st.det /\ \A i \in 1..Len(legs) : legs[i].det,
                st.poison \/ \E i \in 1..Len(legs) : legs[i].poison)
@@ -302,43 +340,62 @@ SemOp(op, st) ==
          \* merge.Op with cmp = NewComparator(nullsMax=true, key, order).WithMissingAsNull()
          LET c == MaxCmp(op.f, op.desc)
              all == Concat([i \in 1..Len(st.ps) |-> st.ps[i].s])
-             legsSorted == \A i \in 1..Len(st.ps) :
-                              LET p == st.ps[i] IN
-                              SortedBy(p.s, c) /\ (p.ord \/ Compat(p.by, c, p.s))
+             legsSorted == \A i \in 1..Len(st.ps) : SortedAlways(st.ps[i], c)
          IN IF legsSorted
-            THEN LET m == StableSort(all, c) IN St(<<Stream(m, TiesIdentical(m, c), c)>>, st.det, st.poison)
+            THEN LET m == StableSort(all, c)
+                     \* which leg goes first among equal keys is not defined: one class per key
+                 IN St(<<Mk(m, ClsBy(Len(m), LAMBDA i, j : Cmp(c, m[i], m[j]) = 0), c)>>, st.det, st.poison)
             ELSE St(<<Bag(all)>>, st.det, st.poison)     \* merge never drops values; the order is garbage
     [] op.k = "join" ->
          IF Len(st.ps) # 2 THEN St(<<Bag(<<>>)>>, FALSE, st.poison)
          ELSE St(<<Bag(JoinRun(op, st.ps[1].s, st.ps[2].s))>>, st.det, st.poison)
     [] OTHER ->
-         LET x == Combine(st.ps) IN
+         LET x == Combine(st.ps)
+             n == Len(x.s)
+         IN
          CASE op.k \in {"where", "cut", "drop", "put", "rename", "yield", "pass"} ->
-                St(<<Stream(MapSeq(op, x.s), x.ord, IF KeepsKey(op, x.by, x.s) THEN x.by ELSE NoCmp)>>, st.det, st.poison)
+                LET pr == MapPairs(op, x.s, x.cls) IN
+                St(<<Mk([i \in 1..Len(pr) |-> pr[i].v], [i \in 1..Len(pr) |-> pr[i].c],
+                        IF KeepsKey(op, x.by, x.s) THEN x.by ELSE NoCmp)>>, st.det, st.poison)
            [] op.k = "cutcount" ->      \* cut c:=count(): a running count, in emission order
-                St(<<Stream([i \in 1..Len(x.s) |-> RecV(<<Fld("c", IntV(i))>>)], TRUE, NoCmp)>>, st.det, st.poison)
+                St(<<Seqd([i \in 1..n |-> RecV(<<Fld("c", IntV(i))>>)])>>, st.det, st.poison)
            [] op.k = "sort" ->
+                \* stable: equal keys keep their arrival order, which is defined iff they
+                \* arrived in different classes
                 LET c == SortCmp(op.f, op.desc # op.rev, op.nf)
-                    m == StableSort(x.s, c)
-                IN St(<<Stream(m, TiesIdentical(m, c), c)>>, st.det, st.poison)
+                    \* sort positions by the key of their value (insertion sort on indices)
+                    RECURSIVE Ins(_, _), SortIx(_)
+                    Ins(i, t) == IF t = <<>> THEN <<i>>
+                                 ELSE IF Cmp(c, x.s[i], x.s[t[1]]) <= 0 THEN <<i>> \o t
+                                 ELSE <<t[1]>> \o Ins(i, Tail(t))
+                    SortIx(ix) == IF ix = <<>> THEN <<>> ELSE Ins(ix[1], SortIx(Tail(ix)))
+                    ix == SortIx(Ids(n))
+                    m == [i \in 1..n |-> x.s[ix[i]]]
+                    oc == [i \in 1..n |-> x.cls[ix[i]]]
+                IN St(<<Mk(m, ClsBy(n, LAMBDA i, j : Cmp(c, m[i], m[j]) = 0 /\ oc[i] = oc[j]), c)>>, st.det, st.poison)
            [] op.k = "head" ->
-                St(<<Stream(SubSeq(x.s, 1, IF op.n < Len(x.s) THEN op.n ELSE Len(x.s)), x.ord, x.by)>>,
-                   st.det /\ (x.ord \/ Len(x.s) <= op.n), st.poison)
+                LET k == IF op.n < n THEN op.n ELSE n IN
+                St(<<Mk(SubSeq(x.s, 1, k), SubCls(x.cls, 1, k), x.by)>>,
+                   st.det /\ (n <= op.n \/ x.cls[k] # x.cls[k + 1] \/ ClassUniform(x, k)), st.poison)
            [] op.k = "tail" ->
-                St(<<Stream(SubSeq(x.s, IF Len(x.s) > op.n THEN Len(x.s) - op.n + 1 ELSE 1, Len(x.s)), x.ord, x.by)>>,
-                   st.det /\ (x.ord \/ Len(x.s) <= op.n), st.poison)
+                LET a == IF n > op.n THEN n - op.n + 1 ELSE 1 IN
+                St(<<Mk(SubSeq(x.s, a, n), SubCls(x.cls, a, n), x.by)>>,
+                   st.det /\ (n <= op.n \/ x.cls[a - 1] # x.cls[a] \/ ClassUniform(x, a)), st.poison)
            [] op.k = "uniq" ->
-                St(<<Stream(Uniq(x.s), x.ord, x.by)>>, st.det /\ x.ord, st.poison)
+                \* adjacent duplicates: defined when the sequence is
+                LET u == Uniq(x.s) IN
+                St(<<IF Ord(x) THEN Seqd(u) ELSE Bag(u)>>, st.det /\ Ord(x), st.poison)
            [] op.k = "summ" ->
                 LET kf == IF op.pin THEN op.key ELSE op.kr
                     c == MaxCmp(kf, op.dir < 0)
                     \* with InputSortDir set and an input that really is sorted that way, groups are
                     \* released in key order (groupby.go sorts each released batch by the primary key)
-                    sortedOut == op.dir # 0 /\ op.key # "" /\ SortedBy(x.s, c) /\ (x.ord \/ Compat(x.by, c, x.s))
+                    sortedOut == op.dir # 0 /\ op.key # "" /\ SortedAlways(x, c)
                     out == Summ(op, x.s)
                     oc == MaxCmp(op.key, op.dir < 0)
-                IN St(<<IF sortedOut THEN Stream(out, TiesIdentical(out, oc), oc) ELSE Bag(out)>>, st.det,
-                      st.poison \/ (op.dir # 0 /\ op.key # "" /\ ~GroupedAlways(x, kf)))
+                IN St(<<IF sortedOut THEN Mk(out, ClsBy(Len(out), LAMBDA i, j : Cmp(oc, out[i], out[j]) = 0), oc) ELSE Bag(out)>>,
+                      st.det,
+                      st.poison \/ (op.dir # 0 /\ op.key # "" /\ ~GroupedAlways(x, kf, op.dir < 0)))
 
 SemSeq(ops, st) == IF ops = <<>> THEN st ELSE SemSeq(Tail(ops), SemOp(ops[1], st))
 
@@ -348,9 +405,10 @@ SemSeq(ops, st) == IF ops = <<>> THEN st ELSE SemSeq(Tail(ops), SemOp(ops[1], st
 \* The declared sort key does not change what the source delivers.
 Sem(prog, input) ==
   LET s0 == SelectSeq(input, LAMBDA v : AllT(prog.src.filter, v))
-      r == SemSeq(prog.ops, St(<<Stream(s0, TRUE, NoCmp)>>, TRUE, FALSE))
+      r == SemSeq(prog.ops, St(<<Seqd(s0)>>, TRUE, FALSE))
       out == Combine(r.ps)
-  IN [s |-> out.s, ord |-> out.ord, by |-> out.by, det |-> r.det, poison |-> r.poison]
+      ord == Ord(out)
+  IN [s |-> out.s, cls |-> out.cls, ord |-> ord, by |-> IF ord THEN NoCmp ELSE out.by, det |-> r.det, poison |-> r.poison]
 
 \* ref is the meaning of the program as analyzed, opt that of the rewritten one.
 Equiv(ref, opt) ==
@@ -358,5 +416,5 @@ Equiv(ref, opt) ==
   /\ opt.det
   /\ SameBag(ref.s, opt.s)
   /\ ref.ord => (opt.ord /\ opt.s = ref.s)
-  /\ (~ref.ord /\ ref.by # NoCmp) => (SortedBy(opt.s, ref.by) /\ (opt.ord \/ Compat(opt.by, ref.by, opt.s)))
+  /\ (~ref.ord /\ ref.by # NoCmp) => SortedAlways(opt, ref.by)
 =============================================================================
